@@ -1231,6 +1231,21 @@ def _never_none(e) -> bool:
     return False
 
 
+def _in_try_body(fn, node) -> bool:
+    """node stands (at any depth) in the body of a try statement that has handlers: an exception it raises may be caught in this function"""
+    parents = {}
+    for p in ast.walk(fn):
+        for c in ast.iter_child_nodes(p):
+            parents[id(c)] = p
+    n = node
+    while id(n) in parents:
+        p = parents[id(n)]
+        if isinstance(p, ast.Try) and p.handlers and any(n is x for x in p.body):
+            return True
+        n = p
+    return False
+
+
 def _derefs(st, t: str) -> bool:
     """the simple statement evaluates `t[...]` or `t.<attr>` unconditionally (not under and/or, a conditional expression, a comprehension
     or a lambda) and does not assign t"""
@@ -1276,7 +1291,7 @@ def thread_none_sentinels(modules, known, rep):
             for owner, fld, stmts in list(_blocks(fn)):
                 for i in range(1, len(stmts)):
                     s1, s2 = stmts[i - 1], stmts[i]
-                    if not (isinstance(s1, ast.If) and isinstance(s2, ast.If) and _is_fresh(s2, fn, kh)):
+                    if not (isinstance(s1, (ast.If, ast.Try)) and isinstance(s2, ast.If) and _is_fresh(s2, fn, kh)):
                         continue
                     c = s2.test
                     if not (isinstance(c, ast.Compare) and len(c.ops) == 1 and isinstance(c.ops[0], (ast.Is, ast.IsNot)) and isinstance(c.left, ast.Name)
@@ -1321,6 +1336,13 @@ def thread_none_sentinels(modules, known, rep):
                                     st.orelse = thread(st.orelse, state)
                                     out.append(st)
                                     return out
+                                if isinstance(st, ast.Try) and st is block[-1] and not st.finalbody and not any(stores_t(b) for b in st.body):
+                                    # what follows the try runs after its `else:` (no exception) or after a handler; it is not covered by the handlers
+                                    st.orelse = thread(st.orelse, state)
+                                    for hd in st.handlers:
+                                        hd.body = thread(hd.body, state)
+                                    out.append(st)
+                                    return out
                                 failed = True
                             out.append(st)
                         if not _exits(out):
@@ -1353,12 +1375,21 @@ def thread_none_sentinels(modules, known, rep):
                                     and not any(isinstance(n, ast.Name) and n.id == t for n in ast.walk(b_.value)):
                                 del block[k2]
                                 continue
+                            # ... or by a raise that does not mention t (nothing reads the sentinel on that way out)
+                            if isinstance(a_, ast.Assign) and len(a_.targets) == 1 and isinstance(a_.targets[0], ast.Name) and a_.targets[0].id == t \
+                                    and isinstance(a_.value, ast.Constant) and a_.value.value is None and isinstance(b_, ast.Raise) \
+                                    and not any(isinstance(n, ast.Name) and n.id == t for n in ast.walk(b_)) \
+                                    and not _in_try_body(fn, b_):
+                                del block[k2]
+                                continue
                             k2 += 1
                         for b_ in block:
                             for fld2 in ("body", "orelse", "finalbody"):
                                 sub = getattr(b_, fld2, None)
                                 if isinstance(sub, list) and sub and isinstance(sub[0], ast.stmt):
                                     drop_dead(sub)
+                            for hd_ in getattr(b_, "handlers", []) or []:
+                                drop_dead(hd_.body)
                     drop_dead(stmts)
                     rep.other.append(f"None sentinel `{t}` in {sc + '.' if sc else ''}{fn.name} threaded into the {leaves} branch(es) that set it")
                     changed = True
